@@ -270,6 +270,17 @@ def run(prog: Program, res: Result) -> None:
             bad("R3-same-discriminator", f.node, f"models.Task.{m}::discriminator",
                 f"Task.{m} has no list-vs-scalar discriminator at all")
     res.count("flatteners", len(flatteners))
+    # the bounds a composite variable reports are its children's bounds (decided by C13's rule module; Task.get_bounds hands
+    # them on unchanged, so a composite that over-reports makes the task's bounds disagree with the owning coordinate's)
+    from . import c13 as _c13
+    _sub = Result(prop="C13")
+    _c13.run(prog, _sub)
+    for f_ in _sub.findings:
+        if f_.rule in ("C13.R4-bounds-of-children",):
+            res.ob(False)
+            res.add(Finding(P, "C14.domain.R4-bounds-of-children", f_.key, f_.loc,
+                            f"{f_.msg} - Task.get_bounds reports, for that coordinate, a bound its owning variable does not have"))
+    res.ob(True, "composite bounds = children's bounds (C13.R4 re-evaluated)", "composite-bounds")
 
     # ------------------------------------------------------------------ R4 transform_solution
     ts = flatteners["transform_solution"]
